@@ -10,7 +10,7 @@ import copy
 
 from vf import core, monitors
 from vf.gen import fedgen
-from vf.props._parsework import base_statements
+from vf.props._parsework import base_statements, gram_statements
 
 ID = 'C18'
 LEVEL = 'exploration'
@@ -150,6 +150,7 @@ def run_shard(ctx):
              for n in (30, 80, 200)]
     base += [('long', 'SELECT x FROM t WHERE y IN (' + ', '.join(f"'v{j}'" for j in range(300)) + ') ORDER BY x, (y) DESC'),
              ('long', 'INSERT INTO t (a, b) VALUES ' + ', '.join(f"({j}, 'w{j}')" for j in range(120)))]
+    base += gram_statements(ctx.seed, 2000 if ctx.tier == 'quick' else 12000)
     prev = None
     for i, (label, text) in enumerate(base):
         if not ctx.mine(i):
